@@ -195,8 +195,11 @@ def run_property(prop, runner, repo_root, tier, level, seed=0, write_evidence=Tr
     def emit(s):
         out.append(s)
         if not quiet:
-            print(s)
-            sys.stdout.flush()
+            try:
+                print(s)
+                sys.stdout.flush()
+            except BrokenPipeError:
+                pass
 
     try:
         repo = Repo(repo_root)
